@@ -290,7 +290,7 @@ func fileCase(c Case, rec *evid.Rec) (err error) {
 		if opens > 1 {
 			rec.Class("several_chunks")
 		}
-		if len(data) > backingBytes {
+		if len(data) > 32<<20 { // larger than the 32 MiB read buffer of the pinned implementation (label only)
 			rec.Class("file_larger_than_read_buffer")
 		}
 		if n >= 3 && (varLen || c.BigLines > 0) {
